@@ -5,7 +5,7 @@ observed output, and answers one line per record:
   `ok <flags…>` | `DISAGREE <kind> model=<…> impl=<…>` | `ORACLE-FAIL <property> <detail>` |
   `KNOWN <property> <signature> …` | `BADREC <kind>`.
 -/
-import Driver.Stages1
+import Driver.Stages2
 open Pm Drv
 
 def handle (line : String) : String :=
@@ -20,6 +20,10 @@ def handle (line : String) : String :=
       | "CSS" => some handleCSS
       | "CSM" => some handleCSM
       | "MO" => some handleMO
+      | "TRS" => some (handleTreeChar pSCons sSCons natLt "TREE.string")
+      | "TRM" => some (handleTreeChar pMCons sMCons mkeyLt "TREE.matrix")
+      | "TRH" => some handleTRH
+      | "TRT" => some handleTRT
       | _ => none
     match p with
     | none => s!"BADREC unknown-kind {kind}"
